@@ -24,13 +24,13 @@ def stateClass : NState Q → Nat
 
 mutual
 /-- equality of two trees where the indices of nodes outside `old` are not compared (they only have to be
-    outside `old`); maps are compared with `cmpAff`; `exactStates` = compare witnesses by value -/
+    outside `old`); maps are compared with `cmpAffScaled`; `exactStates` = compare witnesses by value -/
 def treeCmp (old : List Nat) (exactStates : Bool) : PT Q → PT Q → Cmp
   | .node i c ks, .node j d ls =>
     let idxOk := if old.contains i then i == j else !old.contains j
     let stOk := if exactStates then stateEq c.state d.state else stateClass c.state == stateClass d.state
     if !idxOk || !stOk then .different
-    else (cmpAff c.aff d.aff).and (kidsCmp old exactStates ks ls)
+    else (cmpAffScaled c.aff d.aff).and (kidsCmp old exactStates ks ls)
 def kidsCmp (old : List Nat) (exactStates : Bool) : PKids Q → PKids Q → Cmp
   | .nil, .nil => .same
   | .cons none r, .cons none s => kidsCmp old exactStates r s
